@@ -111,9 +111,9 @@ SECTION_NAMES = [".text", ".text.hot", ".text.unlikely", ".init", ".fini", ".plt
 
 
 @st.composite
-def objects(draw, max_sections=5):
+def objects(draw, max_sections=5, want_relocs=False):
     """A relocatable object description: {'bits': 64|32, 'sections': [[name, chunks, exec]], 'symbols': [[name, secidx, value, type]]}"""
-    bits = draw(st.sampled_from([64, 64, 64, 32]))
+    bits = 64 if want_relocs else draw(st.sampled_from([64, 64, 64, 32]))
     nsec = draw(st.integers(1, max_sections))
     names = draw(st.permutations(SECTION_NAMES))[:nsec]
     sections = []
@@ -128,7 +128,9 @@ def objects(draw, max_sections=5):
         size = len(expand(sections[si - 1][1]))
         symbols.append([f"sym{q}", si, draw(st.integers(0, max(0, size - 1))), draw(st.sampled_from(["func", "func", "func", "object"]))])
     desc = {"bits": bits, "sections": sections, "symbols": symbols}
-    if bits == 64 and symbols and draw(st.integers(0, 2)) == 0:
+    if bits == 64 and (want_relocs or draw(st.integers(0, 1)) == 0):
+        if not symbols:
+            symbols.append(["ext0", 1, 0, "func"])
         # relocations against the symbols (calls to externals, rip-relative data references): shown by `objdump -r`
         rl = []
         for _ in range(draw(st.integers(1, 6))):
